@@ -33,6 +33,7 @@ from vmc.vloop import VLoop
 
 _CURRENT: "World | None" = None
 _MASTERS: dict = {}
+_DISPOSED = 0
 _real_open = asyncio.open_connection
 _real_udp_open = mitmproxy_rs.udp.open_udp_connection
 
@@ -266,6 +267,12 @@ class World:
         cached = _MASTERS.get(key) if key is not None else None
         if cached is not None:
             self.master, self.probe = cached
+            import mitmproxy.ctx as _mctx0
+
+            # addon configure() handlers triggered by options.reset() consult mitmproxy.ctx: point it at this
+            # master first (a process may alternate between cached masters with different addon sets)
+            _mctx0.master = self.master
+            _mctx0.options = self.master.options
             self.master.event_loop = self.loop
             self.probe.__dict__["world"] = self
             self.options = self.master.options
@@ -462,6 +469,12 @@ class World:
             asyncio_utils._KEEP_ALIVE.clear()
             if _CURRENT is self:
                 _CURRENT = None
+            # close_out()'s gc.collect(1) promotes the still-referenced world graph to the oldest generation;
+            # without an occasional full collection workers slow down and grow steadily
+            global _DISPOSED
+            _DISPOSED += 1
+            if _DISPOSED % 200 == 0:
+                gc.collect()
 
 
 def _is_ip(h):
